@@ -63,6 +63,27 @@ FUNCTIONAL = [re.compile(p) for p in [
 ]]
 
 
+# std higher-order functions that do nothing but (possibly) call the closure they are given: read-only iff that closure is
+HOF_PURE = re.compile(r'^std::option::Option::<T>::(map|map_or|map_or_else|and_then|is_some_and|is_none_or|unwrap_or_else|unwrap_or|'
+                      r'unwrap_or_default|filter|or_else)$')
+
+
+def closure_children(facts, caller, term):
+    """local closure bodies named by the `{closure@file:line:col: ..}` generic arguments of a call made by `caller`"""
+    out = []
+    for a in (term.get('callee') or {}).get('args', []):
+        m = re.match(r'^\{closure@[^:]+:(\d+):(\d+)', a)
+        if not m:
+            continue
+        line = int(m.group(1))
+        owner = caller.split('::{closure#')[0]
+        cands = [n for n, b in facts.bodies.items() if n.startswith(owner + '::{closure#') and b.j.get('line_lo') == line]
+        if len(cands) != 1:
+            return None
+        out.append(cands[0])
+    return out
+
+
 def foreign_pure(name):
     return any(r.match(name) for r in _PURE_RE)
 
@@ -102,6 +123,9 @@ class Purity:
                 for _, t in b.calls():
                     cn = callee_name(t)
                     ok = pure.get(cn) if cn in pure else (foreign_pure(cn) or foreign_pure(callee_decl(t)))
+                    if not ok and cn not in pure and HOF_PURE.match(cn):
+                        kids = closure_children(self.facts, name, t)
+                        ok = kids is not None and all(pure.get(k, False) for k in kids)
                     if not ok:
                         pure[name] = False
                         self.reason[name] = 'calls %s' % cn
@@ -116,9 +140,13 @@ class Purity:
             return True
         return False
 
-    def is_pure(self, name, term=None):
+    def is_pure(self, name, term=None, caller=None):
         if name in self.pure:
             return self.pure[name]
+        if term is not None and caller is not None and HOF_PURE.match(name):
+            kids = closure_children(self.facts, caller, term)
+            if kids is not None and all(self.pure.get(k, False) for k in kids):
+                return True
         if foreign_pure(name):
             return True
         if term is not None and foreign_pure(callee_decl(term)):
